@@ -36,6 +36,10 @@ fn handle(line: &str, oracle: bool) -> String {
             (Ok(t), Some(d)) => l1::op_big(true, o, t, &d),
             _ => bad(),
         },
+        // floods of false preambles (hundreds of thousands of complete, rejected candidates in one call): oracle
+        // only -- the model's scanner is quadratic on them (it measures the rest of the buffer at every candidate)
+        (["XSCAN", h], o) => if o { unhex(h).map(|d| l1::oracle_scan(&d)).unwrap_or_else(bad) } else { "BAD-OP".into() },
+        (["XITER", h], o) => if o { unhex(h).map(|d| l1::oracle_iter(&d)).unwrap_or_else(bad) } else { "BAD-OP".into() },
         (["ITER", h], false) => unhex(h).map(|d| l1::op_iter(&d)).unwrap_or_else(bad),
         (["ITER", h], true) => unhex(h).map(|d| l1::oracle_iter(&d)).unwrap_or_else(bad),
         (["FEED", h], false) => chunks(h).map(|c| l1::op_feed(&c)).unwrap_or_else(bad),
